@@ -19,8 +19,8 @@ package balance
 //@ witness isHost = node.IsHost
 //@ witness min = bigval(b.MinBalance)
 //@ witness minSet = b.MinBalance != nil
-//@ witness credit = b.Store.credit[b.Store.cell[node.ID]]
-//@ witness deposit = b.Store.deposit[b.Store.cell[node.ID]]
+//@ witness credit = store.nodeCredit(b.Store, node.ID)
+//@ witness deposit = store.nodeDeposit(b.Store, node.ID)
 
 //@ func (*payPerInterval).intervalCredit
 //@ property C02
@@ -32,8 +32,8 @@ package balance
 //@ func (*payPerInterval).OnUpdate
 //@ property C01 C02 C03
 //@ ensures [zero-sum] {C01}        (err == nil || typeis(err, LowBalanceError) || b.Store.loglen == old(b.Store.loglen)) ==> b.Store.total == old(b.Store.total)
-//@ ensures [all-or-nothing] {C01 C02} err != nil && !typeis(err, LowBalanceError) ==> b.Store.loglen == old(b.Store.loglen) && b.Store.credit == old(b.Store.credit)
-//@ ensures [host-free] {C02 C03}   node.IsHost ==> b.Store.credit == old(b.Store.credit) && b.Store.loglen == old(b.Store.loglen) && !typeis(err, LowBalanceError)
+//@ ensures [all-or-nothing] {C01 C02} err != nil && !typeis(err, LowBalanceError) ==> b.Store.loglen == old(b.Store.loglen) && store.sameCredit(b.Store)
+//@ ensures [host-free] {C02 C03}   node.IsHost ==> store.sameCredit(b.Store) && b.Store.loglen == old(b.Store.loglen) && !typeis(err, LowBalanceError)
 //@ ensures [log-prefix] {C02}      forall j int :: 0 <= j && j < old(b.Store.loglen) ==> b.Store.logid[j] == old(b.Store.logid[j]) && b.Store.logamt[j] == old(b.Store.logamt[j])
 //@ ensures [debit-last] {C02}      !node.IsHost && (err == nil || typeis(err, LowBalanceError)) && b.Store.loglen > old(b.Store.loglen) ==>
 //@                                   b.Store.logid[b.Store.loglen - 1] == node.ID && b.Store.loglen - old(b.Store.loglen) - 1 <= len(peers)
@@ -41,14 +41,14 @@ package balance
 //@                                   forall j int :: old(b.Store.loglen) <= j && j < b.Store.loglen - 1 ==> b.Store.logamt[j] == charge(b, node.LastSeen, clock())
 //@ ensures [all-peers] {C02}       !node.IsHost && (err == nil || typeis(err, LowBalanceError)) && b.Store.loglen == old(b.Store.loglen) + len(peers) + 1 ==>
 //@                                   forall j int :: old(b.Store.loglen) <= j && j < old(b.Store.loglen) + len(peers) ==> b.Store.logid[j] == peers[j - old(b.Store.loglen)].ID
-//@ ensures [zero-charge-noop] {C02} !node.IsHost && err == nil && b.Store.loglen == old(b.Store.loglen) ==> b.Store.credit == old(b.Store.credit)
+//@ ensures [zero-charge-noop] {C02} !node.IsHost && err == nil && b.Store.loglen == old(b.Store.loglen) ==> store.sameCredit(b.Store)
 //@ ensures [cut-off] {C03}         !node.IsHost && b.Store.loglen > old(b.Store.loglen) && (err == nil || typeis(err, LowBalanceError)) ==>
 //@                                   (typeis(err, LowBalanceError) <==> b.MinBalance != nil && store.spendable(b.Store, node.ID) < bigval(b.MinBalance))
 //@ ensures [no-charge-no-cut-off] {C03} b.Store.loglen == old(b.Store.loglen) ==> !typeis(err, LowBalanceError)
 //@ ensures [reports-actual] {C03}  typeis(err, LowBalanceError) ==> bigval(err.(LowBalanceError).CurrentBalance) == store.spendable(b.Store, node.ID)
 //@ loop 0 invariant [total]   b.Store.total == old(b.Store.total) + bigval(total)
 //@ loop 0 invariant [count]   b.Store.loglen - old(b.Store.loglen) <= rangeidx && b.Store.loglen >= old(b.Store.loglen)
-//@ loop 0 invariant [none-yet] b.Store.loglen == old(b.Store.loglen) ==> bigval(total) == 0 && b.Store.credit == old(b.Store.credit)
+//@ loop 0 invariant [none-yet] b.Store.loglen == old(b.Store.loglen) ==> bigval(total) == 0 && store.sameCredit(b.Store)
 //@ loop 0 invariant [prefix]  forall j int :: 0 <= j && j < old(b.Store.loglen) ==> b.Store.logid[j] == old(b.Store.logid[j]) && b.Store.logamt[j] == old(b.Store.logamt[j])
 //@ loop 0 invariant [amounts] forall j int :: old(b.Store.loglen) <= j && j < b.Store.loglen ==> b.Store.logamt[j] == bigval(credit)
 //@ loop 0 invariant [ids]     b.Store.loglen - old(b.Store.loglen) == rangeidx ==> forall j int :: old(b.Store.loglen) <= j && j < b.Store.loglen ==> b.Store.logid[j] == peers[j - old(b.Store.loglen)].ID
